@@ -42,6 +42,7 @@ def leaves(kind, icls=None):
             "interval": (t.a, t.b > T.Interval(days=3)),
             # an interval constructed FOR the dialect of the class its part is built with: the rendering dialect decides, not the argument
             "interval-dialect-arg": (t.a + T.Interval(hours=2, minutes=5, dialect=idial), t.b > T.Interval(days=3, dialect=idial)),
+            "interval-function-arg": (fn.Coalesce(T.Function("DATE_ADD", t.a, T.Interval(hours=2, minutes=5)), t.c), T.Function("DATE_SUB", t.b, T.Interval(days=3)) > t.d),
             "json": (T.JSON({"k": "v"}), t.b.contains({"a": 1}) if hasattr(t.b, "contains") else t.b == 1),
             "boolean-criterion": (t.a, t.b == True),  # noqa: E712
             "number": (t.a + 1, t.b.between(1, 2)),
@@ -49,7 +50,7 @@ def leaves(kind, icls=None):
     return f
 
 
-LEAF_KINDS = ["identifier", "string-backslash", "array", "interval", "interval-dialect-arg", "json", "boolean-criterion", "number"]
+LEAF_KINDS = ["identifier", "string-backslash", "array", "interval", "interval-dialect-arg", "interval-function-arg", "json", "boolean-criterion", "number"]
 
 
 def inner_select(icls, kind, n="i"):
@@ -79,6 +80,9 @@ def constructs(D, I, depth, kind):
         # row-limiting clause is spelled by the builder class, which is C09's subject and not among the conventions C08 lists)
         "setop-operand-tail": lambda: D.from_(o).select(o.a, o.b).where(o.c == 7).union(nest(inner_select(I, kind), depth).orderby(T.Field("gx"))),
         "setop-base-tail": lambda: nest(inner_select(D, kind), 1).orderby(T.Field("a")).union_all(nest(inner_select(I, kind), depth).orderby(T.Field("gx"))),
+        # the nested part carries its own WITH clause (its body is two levels below the outer statement)
+        "inner-with-cte-from": lambda: D.from_(nest(I.with_(inner_select(I, kind), "cx").from_(P.AliasedQuery("cx")).select("*"), depth)).select("*"),
+        "inner-with-cte-in": lambda: D.from_(o).select(o.a).where(o.a.isin(I.with_(inner_select(I, kind), "cy").from_(P.AliasedQuery("cy")).select("a"))),
         "setop-in-from": lambda: D.from_(I.from_(o).select(o.a, o.b).union(inner_select(I, kind))).select("*"),
         "insert-select": lambda: D.into(P.Table("dst")).from_(nest(inner_select(I, kind), depth)).select("*"),
         "criterion-generic": lambda: D.from_(o).select(o.a).where(leaves(kind, I)(o)[1] & (o.z == "s\\")),
@@ -167,6 +171,23 @@ def cases(run, rng):
                     if depth == 1:
                         yield {"label": "A:%s" % cname, "corr": [(G[cname](), [(QNAMES[D], D.SQL_CONTEXT, "inline"), (QNAMES[D], D.SQL_CONTEXT, "param")])], "expr": "1",
                                "known": None, "describe": {}}
+    # ---- (C) the dialect-specific literal forms inside a statement are the ones the literal has stand-alone under the statement's context
+    for D in QUERY_CLASSES:
+        lits = [T.Interval(hours=2, minutes=5), T.Interval(days=3)]
+        exp = [x.get_sql(D.SQL_CONTEXT) for x in lits]
+        for kind in ("interval", "interval-function-arg"):
+            for depth in (1, 2):
+                for cname, f in constructs(D, P.Query, depth, kind).items():
+                    try:
+                        sg, _ = render(f(), D, False)
+                    except Exception:
+                        continue
+                    if sg.startswith("EXC") or "INTERVAL" not in sg:
+                        continue
+                    SEEN[0] += 1
+                    if sg.count("INTERVAL") != sum(sg.count(e) for e in set(exp)):
+                        FAIL.append({"kind": "an interval inside the statement is not written in the statement's dialect form", "class": QNAMES[D], "construct": cname, "leaf": kind,
+                                     "depth": depth, "mode": "inline", "with_generic_inner": sg, "with_dialect_inner": " / ".join(exp)})
     # ---- (A') one shared generic part rendered through two classes in turn: the second rendering must not remember the first dialect
     for D1, D2 in itertools.permutations(QUERY_CLASSES, 2):
         for kind in LEAF_KINDS:
